@@ -668,7 +668,16 @@ func (w *World) blockLiquidation(op Op, b, a *Snap) *Finding {
 			if new(big.Rat).Sub(r, eps).Cmp(liq) < 0 {
 				sig = "block-seized-at-ratio-within-rounding"
 			}
-			dr, _ := decRatio(c.Coll, tc.CF, debt, cfg.DebtCF, sdk.NewDecFromBigIntWithPrec(p, 18))
+			dr, dok := decRatio(c.Coll, tc.CF, debt, cfg.DebtCF, sdk.NewDecFromBigIntWithPrec(p, 18))
+			// The collateralization ratio of the property is the 18-decimal quantity the module
+			// computes and shows (CalculateCollateralizationRatio): collateral value rounded to 18
+			// decimals, divided by the debt.  For a dust CDP (13 base units against 1) one ulp of the
+			// collateral value is a visible fraction of the ratio: the exact rational ratio can sit a
+			// few 1e-18 above the liquidation ratio while the module's ratio is below it.  That is the
+			// property's "18-decimal rounding", not a seizure at or above the ratio.
+			if dok && sig == "block-seized-at-ratio-within-rounding" && dr.LT(sdk.MustNewDecFromStr(tc.Liq)) {
+				continue
+			}
 			return &Finding{"block-liquidation-only-below-ratio", sig,
 				fmt.Sprintf("cdp %d type %s seized by the begin blocker: collateral %s debt %s price %s: ratio %s (fixed-point %s) >= liquidation ratio %s",
 					c.ID, tc.Name, c.Coll, debt, sdk.NewDecFromBigIntWithPrec(p, 18), r.FloatString(24), dr, tc.Liq)}
